@@ -29,6 +29,23 @@ CHECKS = {
 }
 
 
+def run_group(cmd, cwd, timeout):
+    """Runs cmd in a process group of its own and kills the whole group afterwards: a mutant with an endless loop leaves
+    emitted test scripts (bash children of the test binary) running after `go test` itself has been timed out."""
+    import signal
+    p = subprocess.Popen(cmd, cwd=cwd, env=ENV, stdout=subprocess.DEVNULL, stderr=subprocess.DEVNULL, start_new_session=True)
+    try:
+        rc = p.wait(timeout=timeout)
+    except subprocess.TimeoutExpired:
+        rc = None
+    try:
+        os.killpg(p.pid, signal.SIGKILL)
+    except ProcessLookupError:
+        pass
+    p.wait()
+    return rc
+
+
 def build_mutgen():
     subprocess.run(['go', 'build', '-o', MUTGEN, '.'], cwd=os.path.join(ROOT, 'mutgen'), env=ENV, check=True)
 
@@ -100,13 +117,11 @@ def phase_a(jobs):
             if r.returncode != 0:
                 verdict = 'nobuild'
             else:
-                try:
-                    r = subprocess.run(['go', 'test', '-vet=off', '-count=1', '-timeout', '150s', './...'], cwd=copy, env=ENV,
-                                       capture_output=True, timeout=200)
-                    if r.returncode != 0:
-                        verdict = 'suite-killed'
-                except subprocess.TimeoutExpired:
+                rc = run_group(['go', 'test', '-vet=off', '-count=1', '-timeout', '150s', './...'], copy, 200)
+                if rc is None:
                     verdict = 'suite-killed(timeout)'
+                elif rc != 0:
+                    verdict = 'suite-killed'
             restore(copy, rel)
             with lock:
                 out.write(f'{mid}\t{rel}\t{verdict}\t{desc}\n')
